@@ -7,6 +7,7 @@
 From Coq Require Import Reals ZArith Lra Lia List Bool.
 From PR Require Import Base.Num Base.RNum Model.Grid Model.DynBase Gen.GenC14 Model.Dynamic
      Proofs.Grid_real Proofs.C14_lists Proofs.C14_domain Proofs.C14_freeze.
+From PR Require Import Base.Imp Model.DynImp Gen.GenC14imp Proofs.C14_imp.
 Import ListNotations.
 Open Scope R_scope.
 
@@ -213,3 +214,99 @@ Qed.
 Theorem C14_wrap360 : forall x, 0 <= wrapR x < 360 /\ exists k : Z, wrapR x = x + 360 * IZR k.
 Proof. intros x. split; [apply wrapR_range | apply wrapR_shift]. Qed.
 Print Assumptions C14_wrap360.
+
+(* ====================================================================================================================
+   Wave 3: the object-level methods, translated from /repo by tools/py2coq_imp.py on every run (Gen/GenC14imp.v), ARE the
+   object-level model of Model/DynImp.v.  Every statement holds in every arithmetic [OP] and for every [world] W, i.e. for
+   every behaviour of pyproj / PROJ / the geometry objects (CRS parsing, to_dict, dict update, the transformer, attrs,
+   get_lonlats, to_epsg, area of use, compute_optimal_bb_area are abstract functions, none of them an axiom). *)
+
+(* _extract_lons_lats: a pair as it is; an object's bounding_box attribute if it has one; else ALL its positions *)
+Theorem C14_extract_lons_lats_code_is_model : forall (T : Type) (W : world T) l,
+  value_of (imp_extract_lons_lats W l) = COk (extract_model W l).
+Proof. intros T W. exact (extract_code W). Qed.
+Print Assumptions C14_extract_lons_lats_code_is_model.
+
+(* _get_proj_dict: always a NEW dict (dict(..) / crs.to_dict()), and self is left as it was *)
+Theorem C14_get_proj_dict_code_is_model : forall (T : Type) (W : world T) o,
+  exists st, imp_get_proj_dict W o = Ret [] st (get_pd W o) /\ imp_get_proj_dict_self W st = o.
+Proof. intros T W. exact (get_proj_dict_code W). Qed.
+Print Assumptions C14_get_proj_dict_code_is_model.
+
+(* _compute_bound_centers on a dict it owns = the hand model [bound_centers] on PROJ's output; the prime-meridian entry is
+   written into that dict exactly when the model's flag says so *)
+Theorem C14_bound_centers_code_is_model : forall (T : Type) (OP : ops T) (W : world T) (wrap360 : T -> T) o d l mode,
+  value_of (imp_bound_centers OP W wrap360 o d l mode) = bc_model OP W wrap360 d l mode.
+Proof. intros T OP W w. exact (bound_centers_value OP W w). Qed.
+Print Assumptions C14_bound_centers_code_is_model.
+
+(* freeze: it returns / raises what the object-level model [freeze_obj] says, and self is as it was *)
+Theorem C14_freeze_code_is_model : forall (T : Type) (OP : ops T) (W : world T) (wrap360 : T -> T) o ll fres fshape pinfo mode,
+  match imp_freeze OP W wrap360 o ll fres fshape pinfo mode with
+  | Ret _ st v => freeze_obj OP W wrap360 o ll fres fshape pinfo mode = COk v /\ imp_freeze_self W st = o
+  | Raised => freeze_obj OP W wrap360 o ll fres fshape pinfo mode = CRaised
+  | _ => False
+  end.
+Proof. intros T OP W w. exact (freeze_code OP W w). Qed.
+Print Assumptions C14_freeze_code_is_model.
+
+(* history independence, by induction over the list of calls: running the generated freeze call after call on ONE object
+   (each call gets the self the previous one left) gives, for every call, what a fresh object gives *)
+Theorem C14_freeze_history_independent : forall (T : Type) (OP : ops T) (W : world T) (wrap360 : T -> T) o calls,
+  imp_history OP W wrap360 o calls = Some (map (fresh_freeze OP W wrap360 o) calls).
+Proof. intros T OP W w. exact (history_independent OP W w). Qed.
+Print Assumptions C14_freeze_history_independent.
+
+(* the object-level model is the hand model [freeze] the theorems above are about *)
+Theorem C14_object_freeze_is_model : forall (T : Type) (OP : ops T) (W : world T) (wrap360 : T -> T)
+    o l fres fshape pinfo mode p w h x0 y0 x1 y1,
+  o_optimize W o = false -> init_res (o_resolution W o) = o_resolution W o ->
+  freeze_obj OP W wrap360 o (Some l) fres fshape pinfo mode = COk (FzArea W p w h (x0, y0, x1, y1)) ->
+  let d := match pinfo with Some i => w_update W (get_pd W o) i | None => get_pd W o end in
+  match explicit_area (dyn_of W o) fshape with
+  | Some a => a = mk_area x0 y0 x1 y1 w h
+  | None => exists c pm, w_parse_pd W d = Some c /\
+      freeze OP wrap360 (dyn_of W o) fres fshape (w_is_geographic W c) mode (w_aou W p)
+             (w_project W c (fst (extract_model W l)) (snd (extract_model W l)))
+        = Some (mk_frozen (mk_area x0 y0 x1 y1 w h) pm)
+  end.
+Proof. intros T OP W w. exact (freeze_obj_is_freeze OP W w). Qed.
+Print Assumptions C14_object_freeze_is_model.
+
+(* composition over the reals: the area the (generated) freeze returns contains every valid projected position *)
+Theorem C14_object_freeze_contains : forall (W : world R) (o : dyn_obj W) l fres fshape pinfo mode p w h x0 y0 x1 y1,
+  o_optimize W o = false -> init_res (o_resolution W o) = o_resolution W o ->
+  explicit_area (dyn_of W o) fshape = None ->
+  freeze_obj RO W wrapR o (Some l) fres fshape pinfo mode = COk (FzArea W p w h (x0, y0, x1, y1)) ->
+  let d := match pinfo with Some i => w_update W (get_pd W o) i | None => get_pd W o end in
+  exists c, w_parse_pd W d = Some c /\
+    let pts := w_project W c (fst (extract_model W l)) (snd (extract_model W l)) in
+    let geo := w_is_geographic W c in
+    let a := mk_area x0 y0 x1 y1 w h in
+    (valid_pts pts -> res_pos (eff_res (dyn_of W o) fres) -> shape_pos (eff_shape (dyn_of W o) fshape) ->
+     aou_west (w_aou W p) < aou_east (w_aou W p) ->
+     (geo = true -> mode = MGlobal -> Forall (fun q => aou_west (w_aou W p) <= fst q <= aou_east (w_aou W p)) pts) ->
+     pos_area a /\
+     forall q, In q pts -> inside a (frozen_x geo mode pts (fst q)) (snd q) /\
+                           (~ (geo = true /\ mode = MGlobal) -> strictly_inside a (frozen_x geo mode pts (fst q)) (snd q))).
+Proof. exact object_freeze_contains. Qed.
+Print Assumptions C14_object_freeze_contains.
+
+(* non-vacuity, on the binary64 instance and a concrete world (3 projected points, resolution 2): the generated freeze
+   returns an area (the Ret branch of C14_freeze_code_is_model), and a history of two calls on one object - the second
+   with modify_crs-style arguments - equals two fresh freezes *)
+From Coq Require Import PrimFloat.
+From PR Require Import Base.F64 Model.C14_run Model.C14_imp_run.
+Definition exF_pts : list (float * float) := [(1, 1); (9, 5); (4, 9)]%float.
+Definition exF_world := case_world false (mk_aou (-180) 180)%float exF_pts.
+Definition exF_obj : dyn_obj exF_world := mk_dobj exF_world (0%nat, false) RNone None None None false.
+Example C14_imp_freeze_ex :
+  value_of (imp_freeze F64 exF_world wrap360_F exF_obj (Some (LL_pair exF_world [] [])) (RScalar 2%float) None None MNone)
+  = COk (FzArea exF_world (0%nat, false) 5 5 (0, 0, 10, 10)%float).
+Proof. vm_compute. reflexivity. Qed.
+Example C14_imp_history_ex :
+  let c1 := mk_fcall exF_world (Some (LL_pair exF_world [] [])) (RScalar 2%float) None (Some (1%nat, false)) MCrs in
+  let c2 := mk_fcall exF_world (Some (LL_pair exF_world [] [])) RNone (Some (Some 5, Some 5)) None MNone in
+  imp_history F64 exF_world wrap360_F exF_obj [c1; c2] =
+    Some [COk (FzArea exF_world (1%nat, false) 5 5 (0, 0, 10, 10)%float); COk (FzArea exF_world (0%nat, false) 5 5 (0, 0, 10, 10)%float)].
+Proof. vm_compute. reflexivity. Qed.
